@@ -182,7 +182,7 @@ def run(tier, seed):  # pylint: disable=too-many-locals,too-many-statements,too-
             for q in chosen:
                 items.append({"target": t, "attrs": w, "path": q, "graph": "track", "variant": "cover" if full else "cover-sub"})
             # a share of the all-orders behaviours, dealt round-robin over all bindings
-            share = 2 if tier == "quick" else 8
+            share = 2 if tier == "quick" else 4
             for _ in range(share):
                 items.append({"target": t, "attrs": w, "path": orders[o_idx % len(orders)], "graph": "track",
                               "variant": "orders"})
@@ -192,9 +192,11 @@ def run(tier, seed):  # pylint: disable=too-many-locals,too-many-statements,too-
             wins2 = _windows(t["cls"], attrs, 2)
             pool = [(a, b) for i, a in enumerate(attrs) for b in attrs[i + 1:] if not W.coupled(t["cls"], a, b)]
             for n, (a, b) in enumerate(pool):
-                chosen = [cover2[(n * cfg["pair_paths"] + j) % len(cover2)] for j in range(cfg["pair_paths"])]
-                for q in chosen:
-                    items.append({"target": t, "attrs": [a, b], "path": q, "graph": "track2", "variant": "pairs"})
+                # one behaviour per pair in which the two slots are assigned one after the other (order alternates)
+                having = [q for q in cover2 if ("Order", 1, 2) in _features(q)] or cover2
+                q = sorted(having, key=len)[(n // 2) % min(3, len(having))]
+                items.append({"target": t, "attrs": [a, b] if n % 2 == 0 else [b, a], "path": q, "graph": "track2",
+                              "variant": "pairs"})
             for w in wins2:
                 bound |= set(w)
                 if len(attrs) < 3:
@@ -224,6 +226,11 @@ def run(tier, seed):  # pylint: disable=too-many-locals,too-many-statements,too-
             raise MachineryError(f"{len(gone)} (class, attribute) pairs exercised on the reference tree can no longer be "
                                  f"exercised: {why}")
 
+    if os.environ.get("VERIF_C03_DRY"):  # development aid: size of the replay, nothing executed
+        by = collections.Counter()
+        for it in items:
+            by[it["variant"]] += len(it["path"])
+        raise MachineryError(f"dry run: {len(items)} behaviours, steps by variant {dict(by)}")
     # ---- replay
     t1 = time.time()
     out = _pmap(R.replay_item, items)
